@@ -445,8 +445,11 @@ class Check:
             lines.append("VIOLATION property=%s replay=%s%s" % (self.prop, os.path.relpath(rp, VERIF), tail))
         # obligations that fail ONLY because of a recorded (open) known finding are listed separately:
         # they are neither counted as obligations of this run nor as discharged
-        known_obl = set(f["obligation"] for f in self.failures if any(k.get("key") == f["key"] for k in known))
-        bad_obl = set(f["obligation"] for f in self.failures if not any(k.get("key") == f["key"] for k in known))
+        def obls(f):
+            o = f["obligation"]
+            return list(o) if isinstance(o, (list, tuple, set)) else [o]
+        known_obl = set(o for f in self.failures if any(k.get("key") == f["key"] for k in known) for o in obls(f))
+        bad_obl = set(o for f in self.failures if not any(k.get("key") == f["key"] for k in known) for o in obls(f))
         def tied(name, names):
             # the obligation name given to fail() may be a prefix of the recorded obligation's name (or vice versa)
             return any(name == n or name.startswith(n) or n.startswith(name) for n in names)
